@@ -910,3 +910,175 @@ def gen_loops():
 if __name__ == '__main__':
     t, d = gen_loops()
     print(t['FindDefs'])
+
+
+# ------------------------------------------------------------------ _properties (breadth-first counters)
+def find_function(path, name):
+    t = inline.parse(path)
+    for f in t.body:
+        if isinstance(f, ast.FunctionDef) and f.name == name:
+            return f
+    return None
+
+
+def _seq(items):
+    items = [i for i in items if i != '.skip'] or ['.skip']
+    out = items[-1]
+    for i in reversed(items[:-1]):
+        out = f'(.seq {i} {out})'
+    return out
+
+
+def read_props(fn):
+    """-> Lean text of a BfsProg (Model/BfsProg.lean)"""
+    def bad(why):
+        return ('{ minInit := 0, maxInit := 0, leavesInit := 0, nodesInit := 0, perLevel := .unknown ' + lean_str(why) +
+                ', perNode := .skip, swaps := false }')
+    if fn is None or len(fn.args.args) != 1:
+        return bad('function missing')
+    stmts = body_of(fn)
+    param = fn.args.args[0].arg
+    if not stmts or not isinstance(stmts[-1], ast.Return) or not isinstance(stmts[-1].value, ast.Dict):
+        return bad('does not return a dict literal')
+    role = {}
+    for k, v in zip(stmts[-1].value.keys, stmts[-1].value.values):
+        if not (isinstance(k, ast.Constant) and isinstance(v, ast.Name)):
+            return bad('dict entry is not name')
+        role[v.id] = k.value
+    if sorted(role.values()) != ['max_depth', 'min_depth', 'n_leaves', 'n_nodes']:
+        return bad('dict keys')
+    init = {}
+    level = None
+    loop = None
+    for st in stmts[:-1]:
+        if isinstance(st, ast.Assign) and all(isinstance(t, ast.Name) for t in st.targets):
+            if isinstance(st.value, ast.List) and len(st.value.elts) == 1 and ast.unparse(st.value.elts[0]) == param and len(st.targets) == 1:
+                level = st.targets[0].id
+                continue
+            try:
+                val = ast.literal_eval(st.value)
+            except Exception:
+                return bad('initialiser ' + ast.unparse(st)[:40])
+            if type(val) is not int:
+                return bad('initialiser ' + ast.unparse(st)[:40])
+            for t in st.targets:
+                init[t.id] = val
+            continue
+        if isinstance(st, ast.While) and loop is None and not st.orelse:
+            loop = st
+            continue
+        return bad(ast.unparse(st)[:50])
+    if loop is None or level is None or ast.unparse(loop.test) not in (f'len({level}) > 0', f'len({level}) != 0', level, f'0 < len({level})'):
+        return bad('outer loop')
+    if any(n not in init for n in role) or any(role.get(n) is None for n in init):
+        return bad('counters')
+    byrole = {r: n for n, r in role.items()}
+    nxt = [None]
+    forst = [None]
+    swaps = [False]
+
+    def counter(st, var):
+        return (isinstance(st, ast.AugAssign) and isinstance(st.op, ast.Add) and ast.unparse(st.target) == var and ast.unparse(st.value) == '1') \
+            or (isinstance(st, ast.Assign) and len(st.targets) == 1 and ast.unparse(st.targets[0]) == var
+                and ast.unparse(st.value) in (f'{var} + 1', f'1 + {var}'))
+
+    def cond(e, nd):
+        if isinstance(e, ast.BoolOp) and isinstance(e.op, ast.And):
+            out = cond(e.values[-1], nd)
+            for v in reversed(e.values[:-1]):
+                c = cond(v, nd)
+                out = f'(.and {c} {out})' if c and out else None
+            return out
+        if isinstance(e, ast.UnaryOp) and isinstance(e.op, ast.Not):
+            c = cond(e.operand, nd)
+            return f'(.not {c})' if c else None
+        if isinstance(e, ast.Compare) and len(e.ops) == 1:
+            l, r = ast.unparse(e.left), ast.unparse(e.comparators[0])
+            if r == 'None' and nd and l in (f'{nd}.left', f'{nd}.right'):
+                base = '.hasLeft' if l.endswith('.left') else '.hasRight'
+                if isinstance(e.ops[0], ast.IsNot):
+                    return base
+                if isinstance(e.ops[0], ast.Is):
+                    return f'(.not {base})'
+            if isinstance(e.ops[0], ast.Eq) and {l, r} == {byrole['min_depth'], '0'}:
+                return '.minIsZero'
+        return None
+
+    def stmt(st, nd):
+        for r, con in (('n_nodes', '.incNodes'), ('n_leaves', '.incLeaves'), ('max_depth', '.incMaxDepth')):
+            if counter(st, byrole[r]):
+                return con
+        if isinstance(st, ast.Assign) and len(st.targets) == 1 and ast.unparse(st.targets[0]) == byrole['min_depth'] \
+                and ast.unparse(st.value) == byrole['max_depth']:
+            return '.setMinToMax'
+        if isinstance(st, ast.Expr) and isinstance(st.value, ast.Call) and nxt[0] and nd \
+                and ast.unparse(st.value.func) == f'{nxt[0]}.append' and len(st.value.args) == 1 and not st.value.keywords:
+            a = ast.unparse(st.value.args[0])
+            if a == f'{nd}.left':
+                return '.pushLeft'
+            if a == f'{nd}.right':
+                return '.pushRight'
+        if isinstance(st, ast.If):
+            c = cond(st.test, nd)
+            if c:
+                return f'(.ite {c} {block(st.body, nd)} {block(st.orelse, nd)})'
+        if isinstance(st, ast.Pass):
+            return '.skip'
+        return f'(.unknown {lean_str(ast.unparse(st)[:50])})'
+
+    def block(sts, nd):
+        return _seq([stmt(s, nd) for s in sts])
+
+    per_level = []
+    per_node = None
+    after = False
+    for st in loop.body:
+        if isinstance(st, ast.Assign) and len(st.targets) == 1 and isinstance(st.targets[0], ast.Name) \
+                and isinstance(st.value, ast.List) and not st.value.elts and per_node is None and nxt[0] is None:
+            nxt[0] = st.targets[0].id
+            continue
+        if isinstance(st, ast.For) and per_node is None and not st.orelse and isinstance(st.target, ast.Name) \
+                and ast.unparse(st.iter) == level:
+            if nxt[0] is None:
+                return bad('next-level list is not created before the for')
+            per_node = block(st.body, st.target.id)
+            continue
+        if per_node is not None and isinstance(st, ast.Assign) and len(st.targets) == 1 and ast.unparse(st.targets[0]) == level \
+                and ast.unparse(st.value) == nxt[0] and not after:
+            swaps[0] = True
+            after = True
+            continue
+        if per_node is None:
+            per_level.append(stmt(st, None))
+            continue
+        return bad('after the for: ' + ast.unparse(st)[:40])
+    if per_node is None:
+        return bad('no for over the level list')
+    mn, mx = init[byrole['min_depth']], init[byrole['max_depth']]
+    if mn < 0 or init[byrole['n_leaves']] < 0 or init[byrole['n_nodes']] < 0:
+        return bad('negative initial counter')
+    return ('{ minInit := %d, maxInit := %s, leavesInit := %d, nodesInit := %d, perLevel := %s, perNode := %s, swaps := %s }'
+            % (mn, f'({mx})', init[byrole['n_leaves']], init[byrole['n_nodes']], _seq(per_level), per_node, 'true' if swaps[0] else 'false'))
+
+
+_old_gen_loops8 = gen_loops
+
+
+def gen_loops():
+    texts, data = _old_gen_loops8()
+    bp = read_props(find_function(f'{REPO}/opytimizer/core/node.py', '_properties'))
+    texts['PropsDefs'] = '\n'.join(['-- GENERATED by harness/translate_loops.py from core/node.py `_properties`. Do not edit.',
+                                    'import OpyVerif.Model.BfsProg', 'namespace Opy.Gen', 'open Opy', '',
+                                    f'def bfsProg : BfsProg := {bp}', '', 'end Opy.Gen', ''])
+    texts['Props'] = '\n'.join(['-- GENERATED by harness/translate_loops.py: obligations re-decided on every build. Do not edit.',
+                                'import OpyVerif.Generated.PropsDefs', 'namespace Opy.Gen', 'open Opy',
+                                '/-- `_properties` reads as the counter program `Proofs/BfsProg.bfsProg_is_properties` proves to be `PNode.properties` -/',
+                                'theorem bfsProg_eq : bfsProg = Expected.bfsProg := by decide +kernel',
+                                'end Opy.Gen', ''])
+    data['props'] = bp
+    return texts, data
+
+
+if __name__ == '__main__':
+    t, d = gen_loops()
+    print(t['PropsDefs'])
